@@ -244,7 +244,7 @@ func init() {
 		Exec:      c04Exec,
 		Judge:     c04Judge,
 		Describe:  c04Describe,
-		QuickN:    3000,
+		QuickN:    3000*2,
 		ThoroughN: 150000,
 	})
 }
